@@ -107,80 +107,100 @@ func runC13(c *fw.Ctx) {
 			_ = t.DeleteNodes()
 		}
 	}
-	t.SaveRoot()
-	cm := m.Copy()
-	croot, cw := cm.Ref()
-	s0 := st.KeySet()
-	c.Tracef("checkpoint (SaveRoot) root=%x weight=%d", croot[:4], cw)
-	if !mutate(1+r.Intn(8), true) || !commit(lvl) {
-		return
-	}
-	s1 := st.KeySet()
-	gcBetween := r.Intn(2) == 0
-	if gcBetween {
-		c.Tracef("gc")
-		_ = t.DeleteNodes()
-	}
-	via := "Rollback"
-	if r.Intn(2) == 0 {
-		via = "RollbackTrie"
-		c.Tracef("RollbackTrie(checkpoint hash node)")
-		if cw > 0 {
-			t.RollbackTrie(wmpt.NewHashNode(croot, cw))
-		} else {
-			t.RollbackTrie(nil)
-		}
-	} else {
-		c.Tracef("Rollback()")
-		t.Rollback()
-	}
-	check := func(when string) bool {
-		if got := t.Root(); !bytes.Equal(got, croot) {
-			fail("", "%s: Root() = %x, the checkpoint's root is %x", when, got, croot)
-			return false
-		}
-		if t.Weight() != cw {
-			fail("", "%s: Weight() = %d, the checkpoint's weight is %d", when, t.Weight(), cw)
-			return false
-		}
-		if f := wl.CheckFull(t, cm, true); f != "" {
-			fail("", "%s: the rolled-back live trie: %s", when, f)
-			return false
-		}
-		if f, _ := c11resolvable(c11committed{root: croot, w: cw, model: cm}, st.Clone()); f != "" {
-			fail("", "%s: a trie reopened from the checkpoint root: %s", when, f)
-			return false
-		}
-		return true
-	}
-	if !check("after " + via) {
-		return
-	}
-	s2 := st.KeySet()
-	for k := range s1 {
-		if !s0[k] && s2[k] {
-			fail("", "after %s a node created only by the rolled-back commit is still in storage (%x)", via, k)
+	ncycles := 1 + r.Intn(2)
+	for cycle := 0; cycle < ncycles; cycle++ {
+		t.SaveRoot()
+		cm := m.Copy()
+		croot, cw := cm.Ref()
+		s0 := st.KeySet()
+		c.Tracef("checkpoint (SaveRoot) root=%x weight=%d", croot[:4], cw)
+		if !mutate(1+r.Intn(8), true) || !commit(lvl) {
 			return
 		}
-	}
-	c.Count("rollbacks", 1)
-	c.Count("rollback_via:"+via, 1)
-	if gcBetween {
-		c.Count("gc_between_commit_and_rollback", 1)
-	}
-	for k, n := range kinds {
-		c.Count("change:"+k, int64(n))
-	}
-	// thorough tier and every 4th quick case: two GC passes after the rollback, checkpoint must stay resolvable
-	if !c.Quick() || c.Idx%4 == 0 {
-		for i := 0; i < 2; i++ {
-			c.Tracef("gc (after rollback)")
+		s1 := st.KeySet()
+		gcBetween := r.Intn(2) == 0
+		if gcBetween {
+			c.Tracef("gc")
 			_ = t.DeleteNodes()
 		}
-		if !check("after " + via + " followed by two garbage-collection passes") {
+		via := "Rollback"
+		if r.Intn(2) == 0 {
+			via = "RollbackTrie"
+			c.Tracef("RollbackTrie(checkpoint hash node)")
+			if cw > 0 {
+				t.RollbackTrie(wmpt.NewHashNode(croot, cw))
+			} else {
+				t.RollbackTrie(nil)
+			}
+		} else {
+			c.Tracef("Rollback()")
+			t.Rollback()
+		}
+		check := func(when string) bool {
+			if got := t.Root(); !bytes.Equal(got, croot) {
+				fail("", "%s: Root() = %x, the checkpoint's root is %x", when, got, croot)
+				return false
+			}
+			if t.Weight() != cw {
+				fail("", "%s: Weight() = %d, the checkpoint's weight is %d", when, t.Weight(), cw)
+				return false
+			}
+			if f := wl.CheckFull(t, cm, true); f != "" {
+				fail("", "%s: the rolled-back live trie: %s", when, f)
+				return false
+			}
+			if f, _ := c11resolvable(c11committed{root: croot, w: cw, model: cm}, st.Clone()); f != "" {
+				fail("", "%s: a trie reopened from the checkpoint root: %s", when, f)
+				return false
+			}
+			return true
+		}
+		if !check("after " + via) {
 			return
 		}
-		c.Count("post_rollback_gc_checks", 1)
+		s2 := st.KeySet()
+		for k := range s1 {
+			if !s0[k] && s2[k] {
+				fail("", "after %s a node created only by the rolled-back commit is still in storage (%x)", via, k)
+				return
+			}
+		}
+		c.Count("rollbacks", 1)
+		c.Count("rollback_via:"+via, 1)
+		if gcBetween {
+			c.Count("gc_between_commit_and_rollback", 1)
+		}
+		for k, n := range kinds {
+			c.Count("change:"+k, int64(n))
+		}
+		// thorough tier and every 4th quick case: two GC passes after the rollback, checkpoint must stay resolvable
+		if !c.Quick() || c.Idx%4 == 0 {
+			for i := 0; i < 2; i++ {
+				c.Tracef("gc (after rollback)")
+				_ = t.DeleteNodes()
+			}
+			if !check("after " + via + " followed by two garbage-collection passes") {
+				return
+			}
+			c.Count("post_rollback_gc_checks", 1)
+		}
+		// the rolled-back trie must stay usable: continue from the checkpoint with new changes, commit, check, reopen
+		m = cm.Copy()
+		if r.Intn(2) == 0 || cycle+1 < ncycles {
+			if !mutate(1+r.Intn(5), true) || !commit(lvl) {
+				return
+			}
+			if f := wl.CheckFull(t, m, true); f != "" {
+				fail("", "commit after %s: %s", via, f)
+				return
+			}
+			nr, nw := m.Ref()
+			if f, _ := c11resolvable(c11committed{root: nr, w: nw, model: m}, st.Clone()); f != "" {
+				fail("", "trie reopened from the root committed after %s: %s", via, f)
+				return
+			}
+			c.Count("commits_after_rollback", 1)
+		}
 	}
 	c.NonTrivial(fw.Hash64(strings.Join(c.Trace(), ";")))
 	if c.Idx < 3 {
@@ -194,7 +214,7 @@ func init() {
 		Level: "exploration",
 		Rule: "each case: build and commit a checkpoint state at a collapse level 0..5 (1 in 12 with an empty checkpoint; optionally one GC pass), SaveRoot, then 1..8 changes (new keys, changed values, unchanged re-writes, delete-and-re-add of identical content, deletes), " +
 			"commit at the same level, optionally one GC pass, then Rollback() or RollbackTrie(checkpoint hash node). Oracle: Root()/Weight() equal the checkpoint's; the full observational check (every block's owner, value, verifying proof; every canonical node present) passes on the live trie and on a trie reopened " +
-			"from the checkpoint root; with S0/S1/S2 the storage key sets at checkpoint / after the commit / after rollback, (S1 \\ S0) ∩ S2 is empty; a quarter of the quick cases and all thorough cases add two GC passes after the rollback and repeat the checks. distinct non-trivial = distinct traces",
+			"from the checkpoint root; with S0/S1/S2 the storage key sets at checkpoint / after the commit / after rollback, (S1 \\ S0) ∩ S2 is empty; a quarter of the quick cases and all thorough cases add two GC passes after the rollback and repeat the checks; then the history continues from the rolled-back trie (new changes, commit, full check, reopen), and half of the histories run a second checkpoint/commit/rollback cycle. distinct non-trivial = distinct traces",
 		Cases: func(tier string) int {
 			if tier == "thorough" {
 				return 400000
@@ -203,7 +223,7 @@ func init() {
 		},
 		Run: runC13,
 		Floors: map[string]int64{"rollbacks": 20000, "rollback_via:Rollback": 8000, "rollback_via:RollbackTrie": 8000, "gc_between_commit_and_rollback": 8000, "change:unchanged-rewrite": 3000, "change:del-readd-identical": 3000,
-			"change:new": 20000, "change:deleted": 5000, "post_rollback_gc_checks": 4000},
+			"change:new": 20000, "change:deleted": 5000, "post_rollback_gc_checks": 4000, "commits_after_rollback": 10000},
 		Assumptions: []string{"at most one GC pass between the commit and the rollback (the property's domain)"},
 	})
 }
